@@ -5,3 +5,5 @@ import Props.C01
 #print axioms Bycycle.C01_rows
 #print axioms Bycycle.C01_degenerate
 #print axioms Bycycle.C01_labelling_total
+#print axioms Bycycle.C01_three_oscillations
+#print axioms Bycycle.C01_pipeline
